@@ -13,10 +13,11 @@ Rec == ndJsonDeserialize(IOEnv.TRACE)
 
 VARIABLES order,    \* Seq of <<kind, name>> as last written
           placedI,  \* set of <<kind, name>>
+          placedX,  \* the placed children of the kinds outside the placement model (IF_DATA, USER_RIGHTS): set of <<kind, name>>
           loadedAll,\* every direct child of the MODULE as loaded (also optional singletons, IF_DATA, USER_RIGHTS,
                     \* which the placement model leaves out): Seq of <<kind, name>> in written order
           l
-ivars == <<order, placedI, loadedAll, l>>
+ivars == <<order, placedI, placedX, loadedAll, l>>
 Ev == Rec[l]
 
 IsSubOrder(old, new) == SelectSeq(new, LAMBDA x : x \in Range(old)) = old
@@ -29,17 +30,33 @@ EEof(before) == [i \in 1..Len(before) |->
                     uid |-> IF before[i] \in placedI \/ before[i][1] = "#" THEN 1 ELSE 0]]
 IdxIn(before, x) == CHOOSE i \in 1..Len(before) : before[i] = x
 
+\* IF_DATA and USER_RIGHTS (outside the implementation-shaped model): a new child goes directly behind the last placed
+\* child of its kind - only new children of the same kind may stand between them
+ExtraKinds == {"IF_DATA", "USER_RIGHTS"}
+PosA(seq, x) == CHOOSE i \in 1..Len(seq) : seq[i] = x
+ExtrasSortNew(after) ==
+    \A K \in ExtraKinds :
+        LET plK == {x \in Range(after) : x[1] = K /\ x \in placedX}
+            newK == {x \in Range(after) : x[1] = K /\ x \notin placedX}
+        IN plK # {} =>
+             LET lastP == CHOOSE i \in {PosA(after, p) : p \in plK} : \A p \in plK : PosA(after, p) <= i IN
+             \A x \in newK : /\ PosA(after, x) > lastP
+                             /\ \A j \in (lastP + 1)..(PosA(after, x) - 1) : after[j][1] = K /\ after[j] \notin placedX
+NewlyPlacedX(after) == {x \in Range(after) : x[1] \in ExtraKinds /\ x \notin placedX /\ \E p \in placedX : p[1] = x[1]}
+AllOf(ev) == IF "all" \in DOMAIN ev THEN ev.all ELSE <<>>
+
 ILoad == /\ l <= Len(Rec) /\ Ev.ev \in {"load", "state"}
          /\ order' = Ev.written
          /\ placedI' = IF Ev.ev = "load" THEN Range(Ev.written) ELSE Range(Ev.placed)
          /\ loadedAll' = IF "all" \in DOMAIN Ev THEN Ev.all ELSE <<>>
+         /\ placedX' = {x \in Range(AllOf(Ev)) : x[1] \in ExtraKinds}
          /\ l' = l + 1
 IInsert == /\ l <= Len(Rec) /\ Ev.ev \in {"push_new", "merge", "merge_in"}
            /\ ("panic" \in DOMAIN Ev => Ev.panic = FALSE)
            /\ IsSubOrder(order, Ev.written)
            /\ KeepsLoaded
            /\ order' = Ev.written
-           /\ UNCHANGED <<placedI, loadedAll>>
+           /\ UNCHANGED <<placedI, placedX, loadedAll>>
            /\ l' = l + 1
 ISort == /\ l <= Len(Rec) /\ Ev.ev = "sort_new_items"
          /\ Ev.panic = FALSE
@@ -47,8 +64,10 @@ ISort == /\ l <= Len(Rec) /\ Ev.ev = "sort_new_items"
          /\ IdealSortNew(EEof(order), [i \in 1..Len(order) |-> i],
                          [j \in 1..Len(order) |-> IdxIn(order, Ev.written[j])])
          /\ KeepsLoaded
+         /\ ExtrasSortNew(AllOf(Ev))
          /\ order' = Ev.written
          /\ placedI' = placedI \cup {x \in Range(order) : \E p \in placedI : p[1] = x[1]}
+         /\ placedX' = placedX \cup NewlyPlacedX(AllOf(Ev))
          /\ UNCHANGED loadedAll
          /\ l' = l + 1
 \* C14: sort() - same elements (comments may go), grouped by kind, ascending names in a kind
@@ -60,14 +79,15 @@ ISortFull == /\ l <= Len(Rec) /\ Ev.ev = "sort"
              /\ order' = Ev.written
              /\ placedI' = Range(Ev.written)
              /\ loadedAll' = IF "all" \in DOMAIN Ev THEN Ev.all ELSE <<>>
+             /\ placedX' = {x \in Range(AllOf(Ev)) : x[1] \in ExtraKinds}
              /\ l' = l + 1
 IWrite == /\ l <= Len(Rec) /\ Ev.ev = "write"
           /\ Ev.written = order
           /\ KeepsLoaded
-          /\ UNCHANGED <<order, placedI, loadedAll>>
+          /\ UNCHANGED <<order, placedI, placedX, loadedAll>>
           /\ l' = l + 1
 
-IdealInit == order = <<>> /\ placedI = {} /\ loadedAll = <<>> /\ l = 1
+IdealInit == order = <<>> /\ placedI = {} /\ placedX = {} /\ loadedAll = <<>> /\ l = 1
              /\ E = <<>> /\ lists = [k \in Kinds |-> <<>>] /\ panic = FALSE /\ last = [op |-> "init"]
 IdealNext == (ILoad \/ IInsert \/ ISort \/ ISortFull \/ IWrite) /\ UNCHANGED vars
 IdealTraceSpec == IdealInit /\ [][IdealNext]_<<ivars, vars>>
